@@ -69,6 +69,7 @@ def plan(tier, seed):
         ch.append({'k': 'small', 'opt': opt})
         ch.append({'k': 'subproc', 'opt': opt, 'base': nb - 4})
         ch.append({'k': 'dirmodes', 'opt': opt, 'base': nb - 1})
+        ch.append({'k': 'dirprefix', 'opt': opt})
     if tier == 'thorough':
         for opt in (False, True):
             for bi in (1, nb - 4):
@@ -112,6 +113,11 @@ def eval_case(case):
         if 'harness_error' in res:
             raise RuntimeError(res['harness_error'])
         return res['violations']
+    if case.get('dirprefix'):
+        res = ChunkResult()
+        impl.ensure(False)
+        _dirprefix(res, {'opt': case.get('opt')})
+        return [v for v in res.violations if v['case'] == case]
     if case.get('dirmodes'):
         res = ChunkResult()
         _dirmodes(res, {'base': case['base'], 'opt': case.get('opt')})
@@ -346,7 +352,50 @@ def _run(res, chunk, k, opt):
         _subproc(res, chunk)
     elif k == 'dirmodes':
         _dirmodes(res, chunk)
+    elif k == 'dirprefix':
+        _dirprefix(res, chunk)
     return res
+
+
+def _dirprefix(res, chunk):
+    """A proper prefix is rejected by the modes that read a directory as well (they have their own file reader): for every
+    base PEL, a directory holding nothing but its prefixes that end in the last twelve bytes, through the two modes that
+    decode whole logs (-a prints, --json writes).  Nothing may be shown or written for any of them."""
+    opt = bool(chunk.get('opt'))
+    from mc import strictjson
+    for bi, spec in enumerate(bases()):
+        base = pelgen.encode_pel(pelgen.pel_from_spec(spec))
+        cuts = [n for n in range(max(73, len(base) - 12), len(base))]
+        with tempfile.TemporaryDirectory(prefix='c05p_', dir=clidrv.odd_root()) as d:
+            os.mkdir(os.path.join(d, 'in'))
+            os.mkdir(os.path.join(d, 'out'))
+            for n in cuts:
+                with open(os.path.join(d, 'in', 'prefix_%05d' % n), 'wb') as f:
+                    f.write(base[:n])
+            for mode in (['-a'], ['-a', '-r'], ['-j', '-o', os.path.join(d, 'out')]):
+                case = {'dirprefix': True, 'base': bi, 'opt': opt, 'mode': [m if not m.startswith('/') else '<out>' for m in mode], 'cuts': [cuts[0], cuts[-1]]}
+                core.arm(30)
+                r = clidrv.run_main(['-p', os.path.join(d, 'in')] + mode + ['-E'], isolate=True)
+                core.disarm()
+                rc, so, se = r.status, r.stdout, r.stderr
+                if r.exc:
+                    res.violation('C05:cli-traceback', '%s over a directory of prefixes: exception escaped main(): %s' % (' '.join(case['mode']), r.exc), case)
+                shown = None
+                if mode[0] == '-a':
+                    try:
+                        doc = strictjson.loads(so) if so.strip() else []
+                        shown = len(doc)
+                    except Exception as e:
+                        shown = -1
+                else:
+                    shown = len([fn for fn in os.listdir(os.path.join(d, 'out')) if fn.endswith('.json')])
+                res.case(nontrivial_key=json.dumps(case), outcome='dirprefix:rc=%s:shown=%s' % (rc, shown))
+                if shown:
+                    res.violation('C05:cli-prefix-decoded', '%s over a directory holding only the %d longest proper prefixes of a %d-byte PEL '
+                                  '(base %d): %s' % (' '.join(case['mode']), len(cuts), len(base), bi,
+                                                     'standard output is not a JSON document' if shown < 0 else '%d document(s) shown / written' % shown), case)
+                if rc not in (0, 1):
+                    res.violation('C05:cli-exit', '%s over a directory of prefixes: exit status %s' % (' '.join(case['mode']), rc), case)
 
 
 def _dirmodes(res, chunk):
